@@ -31,7 +31,7 @@ ASSUMPTIONS = [
 ]
 FLOORS = {'quick': {'nontrivial': 20, 'tables_compared': 100},
           'thorough': {'nontrivial': 300, 'tables_compared': 1500}}
-SIZES = {'quick': 40, 'thorough': 500}
+SIZES = {'quick': 64, 'thorough': 600}
 TIMEOUT = {'quick': 170, 'thorough': 1700}
 APPS = ('app1', 'app2', 'app3', 'app4')
 TABLE_POOL = ['shared_t', 'shared_t_x', 'shared', 'app1_a', 'app1_a_b',
@@ -79,6 +79,10 @@ def gen_project(rng):
             if rng.random() < 0.3:
                 fields.append(['self_mm', {'kind': 'ManyToMany',
                                            'to': '%s.%s' % (app, mname)}])
+            for _n, fd in fields:
+                # a ManyToManyField subclass owns its table just the same
+                if fd['kind'] == 'ManyToMany' and rng.random() < 0.4:
+                    fd['subclass'] = True
             spec[app][mname] = {'fields': fields, 'meta': meta}
             used_tables.update(S.owned_tables(spec, app, mname))
     # table names must be unique
@@ -159,6 +163,8 @@ def run_case(desc):
             subset = None
             for _t in range(10):
                 k = rng.randint(1, max(1, len(later)))
+                if _t < 5 and len(later) >= 2 and mode != 'no_purge':
+                    k = rng.randint(2, len(later))   # several apps at once
                 cand = set(rng.sample(later, min(k, len(later))))
                 if cand and removable(spec, apps, cand):
                     subset = cand
@@ -195,6 +201,9 @@ def run_case(desc):
                           args={'purge': True, 'force': True,
                                 'no_facts_before': True})
         ctx = {'mode': mode}
+        if mode != 'delete_model':
+            ctx['n_removed_apps'] = len(subset)
+            stats['removed_%d_apps' % len(subset)] = 1
         if mode != 'delete_model' and mode != 'no_purge':
             ctx['removed_app_has_internal_relation'] = any(
                 fd.get('to', '').split('.')[0] in subset
